@@ -1,6 +1,6 @@
 # Per-property claims; exec'd by gen_manifest.py (claim(id, technique, text, note, design_ref)).
 PENDING = "check not built yet in this framework (DESIGN.md §8 build order); no verdict is claimed until its rule set runs clean both ways"
-for _p in ["C01","C02","C03","C04","C08","C11","C14","C18","C19","C20"]:
+for _p in ["C01","C02","C03","C04","C08","C14","C18","C19","C20"]:
     NOT_APPLICABLE[_p] = PENDING
 
 claim("C10",
@@ -62,3 +62,9 @@ claim("C16",
   "Shows for all destinations, secrets and instants that blinding is a deterministic function of (destination, secret, UTC calendar day): nothing reachable from CreateBlindedDestination in the library or go-i2p/crypto reads a clock, a random source, iterates a map or starts a goroutine, and the day string is date.UTC().Format(2006-01-02); the blinded destination keeps the same destination's key certificate, encryption key and padding; VerifyBlindedSignature is exactly BlindPublicKey(original, alpha) == blinded key. For the encrypted inner leaseset: if the AEAD open fails no value is returned, the value returned is parsed from the authenticated plaintext only, and the byte ranges read on decryption are, as affine forms in the input length, the mirror image of what encryption appends (32|12|ct|16). decrypt(encrypt(x)) = x and rejection of every modified ciphertext byte are properties of X25519/HKDF/ChaCha20-Poly1305 (trusted).",
   "Trusted: go-i2p/crypto kdf/ed25519/chacha20poly1305, go.step.sm x25519, VTA call graph (interface calls resolved by VTA). Logging is excluded from the nondeterminism scan.",
   "DESIGN.md §5 C16")
+
+claim("C11",
+  "dominance of the sort over construction + SSA shape of the comparator and of the size field + guard constants + call-graph closure scan for map iteration/sorting + threshold region (interval partitioning) vs. the writer's minimal pair",
+  "Decides the canonical-form skeleton of the mapping codec for all maps/inputs: the constructor path always sorts by decoded key with `<` before building; Data() writes len(payload) of the very payload it appends; sizes above 65,535 are rejected and the guarded value is the encoded one; nothing reachable from Data()/ReadMapping iterates a Go map or sorts (stored and wire order are kept, so output does not depend on map iteration order); the reader's stop threshold (extracted as a region on the remaining length) is not above the writer's smallest pair (4 bytes) and a non-empty shorter tail is reported. The threshold clause found and fixed the silently dropped short final pair. map→bytes→map identity as a value equality is not decided.",
+  "Trusted: sort.SliceStable semantics; go/ssa. Anchors: data.ValuesToMapping, GoMapToMapping, (*Mapping).Data, ReadMapping, parseKeyValuePairs, serializeOnePair (the last two unexported; a rename makes the check fail loudly rather than pass).",
+  "DESIGN.md §5 C11")
